@@ -69,6 +69,16 @@ Proof.
   destruct b; [apply IH|reflexivity].
 Qed.
 
+Lemma NoDup_app_parts : forall (a b : list path), NoDup (a ++ b) ->
+  NoDup a /\ NoDup b /\ (forall t, In t a -> In t b -> False).
+Proof.
+  induction a as [|x a IH]; intros b H; cbn [app] in H.
+  - split; [constructor|]. split; [exact H|]. intros t [].
+  - inversion H as [|? ? Hx Hr]; subst. destruct (IH b Hr) as (A & B & C). split; [|split; [exact B|]].
+    + constructor; [|exact A]. intro K. apply Hx. apply in_or_app. left. exact K.
+    + intros t [<-|Ht] Hb; [apply Hx; apply in_or_app; right; exact Hb|apply (C t Ht Hb)].
+Qed.
+
 (* monadic steps that are known to yield *)
 Lemma bind_yields_inv : forall A B (m : M A) (f : A -> M B) w w' res a,
   yields m w (inl a) -> bind m f w = (w', res) -> exists w1, good w w1 /\ f a w1 = (w', res).
@@ -136,15 +146,11 @@ Section Replay.
   Proof.
     intros subs H. induction H as [|x rest Hx Hrest IH]; intros St Tl cf r M w w' res Hok Hsem Hnd Hnew G HR Hgo.
     - cbn [GO] in Hgo. inversion Hgo; subst. split; [exact G|]. exists true, cf. split; [reflexivity|].
-      exists r, Tl, M. cbn [kreplay_list flat_map]. repeat split; auto.
+      exists r, Tl, M. cbn [kreplay_list flat_map]. split; [reflexivity|]. split; [exact HR|].
+      split; [intros y Hy; left; exact Hy|]. split; [intros t Ht; left; exact Ht|intros t Ht; exact Ht].
     - cbn [GO] in Hgo. cbn [forallb] in Hok. apply andb_true_iff in Hok. destruct Hok as [Hok1 Hok2].
       cbn [flat_map] in Hnd, Hnew |- *.
-      assert (Hnd1: NoDup (regp x)) by (apply NoDup_app_remove_r in Hnd; exact Hnd).
-      assert (Hnd2: NoDup (flat_map regp rest)) by (apply NoDup_app_remove_l in Hnd; exact Hnd).
-      assert (Hdisj: forall t, In t (regp x) -> In t (flat_map regp rest) -> False).
-      { intros t H1 H2. revert Hnd H1 H2. generalize (regp x) (flat_map regp rest). clear.
-        induction l as [|a l IHl]; intros l' Hnd H1 H2; [destruct H1|]. cbn [app] in Hnd. inversion Hnd; subst.
-        destruct H1 as [<-|H1]; [apply H3; apply in_or_app; right; exact H2|apply (IHl l' H4 H1 H2)]. }
+      destruct (NoDup_app_parts _ _ Hnd) as (Hnd1 & Hnd2 & Hdisj).
       assert (Hsem1: sem_ok x) by (intros y Hy; apply Hsem; cbn [flat_map]; apply in_or_app; left; exact Hy).
       assert (Hsem2: sem_okl rest) by (intros y Hy; apply Hsem; cbn [flat_map]; apply in_or_app; right; exact Hy).
       assert (Hnew1: newt Tl (regp x)) by (intros t Ht; apply Hnew; apply in_or_app; left; exact Ht).
@@ -204,11 +210,12 @@ Section Replay.
       destruct (bind_yields_inv _ _ _ _ _ _ _ _ Y H) as (w1 & G1 & H1). inversion H1; subst.
       split; [eapply good_trans; eassumption|]. eexists _, cf. split; [reflexivity|].
       rewrite kreplay_simple_verdict. destruct (simple_verdict (rp_fs r) q rt ex); [|reflexivity].
-      exists r, Tl, M. repeat split; auto.
+      exists r, Tl, M. split; [reflexivity|]. split; [exact HR|].
+      split; [intros y Hy; left; exact Hy|]. split; [intros t Ht; left; exact Ht|intros t Ht; exact Ht].
     - (* a nested build_file record *)
       pose proof (go_corr subs IH) as Hgo. fold GO in H.
       repeat (apply andb_true_iff in Hok; destruct Hok as [Hok ?]).
-      rename H0 into Hsubs, H1 into Hcross, H2 into Hcmp, H3 into Hnr, H4 into Htgt.
+      rename H0 into Hsubs, H1 into Hcross, H2 into Hcmp, H3 into Hroot, H4 into Htgt, Hok into Hnr.
       unfold tgt_ok in Htgt. apply andb_true_iff in Htgt. destruct Htgt as [Hpok Hplen]. apply Nat.ltb_lt in Hplen.
       destruct p as [|n d]; [discriminate|]. set (p := n :: d) in *.
       destruct (good_fields _ _ G) as (Ff & Fn & Fo & Fc).
@@ -264,7 +271,7 @@ Section Replay.
       destruct Yd as [w3 [Ed G3]]. pose proof (good_trans _ _ _ G2 G3) as G03.
       apply bind_inv in H. unfold attempt in H. rewrite Ed in H.
       destruct H as [[w4 [dres [E H]]]|[e [E _]]]; [|discriminate]. inversion E; subst w4 dres. clear E.
-      unfold dtm_res in H. rewrite (missing_dirs_te _ _ (w_cachefile w0) d TE), <- (s3_cf _ _ _ HS) in H.
+      change (dirname p) with d. unfold dtm_res in H. rewrite (missing_dirs_te _ _ (w_cachefile w0) d TE), <- (s3_cf _ _ _ HS) in H.
       destruct (missing_dirs (rp_fs r) (k_cachefile s) d) as [dirs|e] eqn:Emiss.
       2:{ cbn [is_os] in H. inversion H; subst. split; [exact G03|]. exists false, cf. split; reflexivity. }
       destruct (missing_made _ _ _ _ Hpd Emiss) as (fs1 & Emk & _). rewrite Emk.
@@ -291,7 +298,7 @@ Section Replay.
           assert (Hc: cache_created_file (w_old w0) p = true).
           { apply (Hsem (OBuildFile p c f a k subs rt cr false false)); [left; reflexivity|reflexivity]. }
           rewrite Hc. apply andb_false_r. }
-      pose proof (start_rel W w0 s HS HB HWcl St Tl cf r M n d dirs fs1 HR Hpok Hplen Hnin Hnb Hunc Hvf Emiss Emk) as HR1.
+      pose proof (start_rel W w0 s HB HWcl St Tl cf r M n d dirs fs1 HR Hpok Hplen Hnin Hnb Hunc Hvf Emiss Emk) as HR1.
       fold p in HR1.
       (* the suboperations *)
       inversion Hnd as [|? ? Hpn Hnd']; subst.
@@ -336,7 +343,7 @@ Section Replay.
       + (* the record succeeded: finished_building_file / the file is put back *)
         destruct (Hfile eq_refl) as [g Hg]. rewrite Ephys, Hg.
         inversion H; subst.
-        pose proof (finish_rel W w0 s HS HB HWcl St Tl2 cf1 r2 M2 p g R2 Hin2 Hnb2 ltac:(discriminate) Hpok Hplen Hg) as R3.
+        pose proof (finish_rel W w0 s HWcl St Tl2 cf1 r2 M2 p g R2 Hin2 Hnb2 ltac:(discriminate) Hpok Hplen Hg) as R3.
         split; [exact G4|]. exists true, (cf_finished cf1 p). split; [reflexivity|].
         exists (rp_put r2 p g), Tl2, M2. split; [reflexivity|]. split; [exact R3|]. split; [|split].
         * intros x Hx. rewrite cf_finished_files in Hx. apply orb_true_iff in Hx. destruct Hx as [Hx|Hx].
